@@ -524,6 +524,38 @@ func propBindExpr(args []string) string {
 	if perr == nil && e != nil && strings.Contains(e.String(), "stale-decoy") && !strings.Contains(text, "stale-decoy") && !strings.Contains(fmt.Sprint(params), "stale-decoy") {
 		return fmt.Sprintf("%q with %v parses to %s: a value bound by an earlier SetParams call was substituted", text, params, e.String())
 	}
+	// P5: bindings that were already *used* are gone too once SetParams replaces them. One parser reads
+	// `SELECT $a, $b FROM zz_prefix; <text>`: the first statement is parsed under marker bindings for every
+	// placeholder of the text, the `;` is consumed, SetParams installs the real map, and the rest is parsed as
+	// the expression. Same outcome as parsing the text on its own (round-4 seeded change C07-1 cached the
+	// token a placeholder resolved to and dropped the entry only when the name was bound again).
+	if names := placeholderNameRe.FindAllStringSubmatch(text, -1); len(names) > 0 {
+		decoy := map[string]interface{}{}
+		var refs []string
+		seen := map[string]bool{}
+		for _, m := range names {
+			if !seen[m[1]] {
+				seen[m[1]] = true
+				decoy[m[1]] = int64(424242)
+				refs = append(refs, "$"+m[1])
+			}
+		}
+		p5 := influxql.NewParser(strings.NewReader("SELECT " + strings.Join(refs, ", ") + " FROM zz_prefix; " + text))
+		p5.SetParams(decoy)
+		if _, err5 := p5.ParseStatement(); err5 == nil {
+			if tok, _, _ := p5.ScanIgnoreWhitespace(); tok == influxql.SEMICOLON {
+				p5.SetParams(params)
+				e5, perr5 := p5.ParseExpr()
+				switch {
+				case perr5 != nil && isOracleError(perr5):
+				case (perr == nil) != (perr5 == nil):
+					return fmt.Sprintf("%q with %v: alone %v; after a statement that used other bindings of the same names on the same parser: %v", text, params, errOrOK(perr), errOrOK(perr5))
+				case perr == nil && sexpExpr(e) != sexpExpr(e5):
+					return fmt.Sprintf("%q with %v parses to %s alone and to %s after a statement that used other bindings of the same names on the same parser", text, params, sexpExpr(e), sexpExpr(e5))
+				}
+			}
+		}
+	}
 	// P3: an empty placeholder is an error under every parameter map
 	for _, t := range emptyPlaceholderTexts {
 		if text == t && perr == nil {
